@@ -193,7 +193,7 @@ def edits(rng, w, info, k=3):
                 out.append(['create', 'children', str(idx(rng.choice(hosts))), tok_of_s('g%d' % rng.randint(0, 99)), '0', '0', str(idx(P))])
     for _ in range(k):
         kind = rng.choice(['rmchild', 'rmchild', 'setref', 'setref', 'rmport', 'rmcable', 'rmwire', 'rmpin',
-                           'unref', 'settop', 'rename', 'addchild', 'addchild'])
+                           'unref', 'settop', 'rename', 'addchild', 'addchild', 'badsetref', 'badsetref'])
         d = w.objs[rng.choice(defs)]
         if kind == 'rmchild' and d.children:
             c = rng.choice(list(d.children))
@@ -208,6 +208,15 @@ def edits(rng, w, info, k=3):
                     and not _reaches(w.objs[i], c.parent)]
             if same:
                 out.append(['setref', str(idx(c)), str(idx(rng.choice(same)))])
+        elif kind == 'badsetref':
+            # a re-pointing that is refused (the new cell has another port shape): nothing may change, every
+            # reference keeps its validity
+            cands = [c for i in defs for c in w.objs[i].children if c.reference is not None]
+            if cands:
+                c = rng.choice(cands)
+                other = [w.objs[i] for i in defs if [len(p.pins) for p in w.objs[i].ports] != [len(p.pins) for p in c.reference.ports]]
+                if other:
+                    out.append(['setref', str(idx(c)), str(idx(rng.choice(other)))])
         elif kind == 'unref':
             cands = [c for i in defs for c in w.objs[i].children]
             if cands:
